@@ -67,7 +67,7 @@ func runC08(c *Ctx) {
 				v = op.Sel.States[op.State].Send
 			}
 			ab := fl.At(v, op.In.Block())
-			ok := fn == a.Raw
+			ok := fn == c.rawBody()
 			why := ""
 			if !ok {
 				why = "sender is " + c.FuncKey(fn) + ", not Raw"
@@ -75,7 +75,7 @@ func runC08(c *Ctx) {
 				ok, why = false, "sent value is not a truncation of the raw line at CR/LF (abstract: "+ab.String()+")"
 			} else if ab.Cut.Seps != crlf {
 				ok, why = false, "truncation separators are "+ab.Cut.Seps.String()+", want exactly {CR,LF}"
-			} else if pr, isP := ab.Cut.Src.(*ssa.Parameter); !isP || !(pr.Parent() == a.Raw || c.paramOfVia(pr, a.Raw)) {
+			} else if pr, isP := ab.Cut.Src.(*ssa.Parameter); !isP || !(pr.Parent() == c.rawBody() || c.paramOfVia(pr, c.rawBody())) {
 				ok, why = false, "truncated value is not Raw's own parameter"
 			} else if !ab.NoB.has('\r') || !ab.NoB.has('\n') {
 				ok, why = false, "CR/LF exclusion not established"
